@@ -192,44 +192,6 @@ c17_wrap_panics!(ty: Wrapping<u8>, any: Wrapping(kani::any()),
 c17_wrap_panics!(ty: Wrapping<i8>, any: Wrapping(kani::any()),
     wrapped: c17_wrapped_wi8_panics_when_upper_not_positive, wrapped_between: c17_wrapped_between_wi8_panics_when_bounds_bad, pingpong: c17_pingpong_wi8_panics_when_upper_not_positive);
 
-/// Wider signed types, full domain: "no intermediate overflow for every input whose result is
-/// representable".  Only panic-freedom is asserted here, so that the (expected) failure is found in
-/// seconds; the complete full-domain contracts `c17_contract_*_{i16..isize}` above need the postcondition
-/// proved on the whole non-overflowing part as well, which took 650-1400 s for i16 and is left unregistered.
-macro_rules! c17_sint_full_domain_no_overflow {
-    (ty: $T:ty, wrapped: $h_w:ident, wrapped_between: $h_wb:ident, pingpong: $h_pp:ident) => {
-        #[kani::proof]
-        fn $h_w() {
-            let v: $T = kani::any(); let u: $T = kani::any();
-            kani::assume(u > 0);
-            let r = v.wrapped(u);
-            assert!(0 <= r && r < u);
-        }
-        #[kani::proof]
-        fn $h_wb() {
-            let v: $T = kani::any(); let lo: $T = kani::any(); let hi: $T = kani::any();
-            kani::assume(0 <= lo && lo < hi);
-            let r = v.wrapped_between(lo, hi);
-            assert!(lo <= r && r < hi);
-        }
-        #[kani::proof]
-        fn $h_pp() {
-            let v: $T = kani::any(); let u: $T = kani::any();
-            kani::assume(u > 0 && u <= <$T>::MAX / 2);
-            let r = v.pingpong(u);
-            assert!(0 <= r && r <= u);
-        }
-    }
-}
-c17_sint_full_domain_no_overflow!(ty: i16, wrapped: c17_wrapped_i16_full_domain_no_overflow,
-    wrapped_between: c17_wrapped_between_i16_full_domain_no_overflow, pingpong: c17_pingpong_i16_full_domain_no_overflow);
-c17_sint_full_domain_no_overflow!(ty: i32, wrapped: c17_wrapped_i32_full_domain_no_overflow,
-    wrapped_between: c17_wrapped_between_i32_full_domain_no_overflow, pingpong: c17_pingpong_i32_full_domain_no_overflow);
-c17_sint_full_domain_no_overflow!(ty: i64, wrapped: c17_wrapped_i64_full_domain_no_overflow,
-    wrapped_between: c17_wrapped_between_i64_full_domain_no_overflow, pingpong: c17_pingpong_i64_full_domain_no_overflow);
-c17_sint_full_domain_no_overflow!(ty: isize, wrapped: c17_wrapped_isize_full_domain_no_overflow,
-    wrapped_between: c17_wrapped_between_isize_full_domain_no_overflow, pingpong: c17_pingpong_isize_full_domain_no_overflow);
-
 /// The i8 safe region is exact: outside of it every input hits an overflow panic.
 #[kani::proof]
 #[kani::should_panic]
@@ -414,3 +376,21 @@ c17_wrap_const_period!(ty: i64, region: c17_sint_safe,
 c17_wrap_const_period!(ty: isize, region: c17_sint_safe,
     uppers: [1, 2, 3, 7, 10, H, M / 2 + 1, M], bounds: [(2, 5), (0, 1), (1, M), (M - 3, M), (M / 2, M / 2 + 7), (0, 3)], pingpong_uppers: [1, 3, 5, H, M / 2],
     wrapped: c17_wrapped_isize_const_period_safe_region, wrapped_between: c17_wrapped_between_isize_const_period_safe_region, pingpong: c17_pingpong_isize_const_period_safe_region);
+
+// Wider signed types on the FULL domain of v (no safe-region restriction), with a few constant bounds:
+// "no intermediate overflow for every input whose result is representable".  These FAIL on the unchanged
+// tree within seconds (e.g. (MIN+1).wrapped(1)).  The complete full-domain contracts
+// `c17_contract_*_{i16..isize}` fail as well, but only after the postconditions have been decided on the whole
+// non-overflowing part (650-1400 s for i16, no verdict in 1800 s for wider types), so they are not registered.
+c17_wrap_const_period!(ty: i16, region: c17_region_all,
+    uppers: [1, 2], bounds: [(0, 1), (M - 3, M)], pingpong_uppers: [1, 3],
+    wrapped: c17_wrapped_i16_full_domain_const_bounds, wrapped_between: c17_wrapped_between_i16_full_domain_const_bounds, pingpong: c17_pingpong_i16_full_domain_const_bounds);
+c17_wrap_const_period!(ty: i32, region: c17_region_all,
+    uppers: [1, 2], bounds: [(0, 1), (M - 3, M)], pingpong_uppers: [1, 3],
+    wrapped: c17_wrapped_i32_full_domain_const_bounds, wrapped_between: c17_wrapped_between_i32_full_domain_const_bounds, pingpong: c17_pingpong_i32_full_domain_const_bounds);
+c17_wrap_const_period!(ty: i64, region: c17_region_all,
+    uppers: [1, 2], bounds: [(0, 1), (M - 3, M)], pingpong_uppers: [1, 3],
+    wrapped: c17_wrapped_i64_full_domain_const_bounds, wrapped_between: c17_wrapped_between_i64_full_domain_const_bounds, pingpong: c17_pingpong_i64_full_domain_const_bounds);
+c17_wrap_const_period!(ty: isize, region: c17_region_all,
+    uppers: [1, 2], bounds: [(0, 1), (M - 3, M)], pingpong_uppers: [1, 3],
+    wrapped: c17_wrapped_isize_full_domain_const_bounds, wrapped_between: c17_wrapped_between_isize_full_domain_const_bounds, pingpong: c17_pingpong_isize_full_domain_const_bounds);
